@@ -154,29 +154,6 @@ Proof.
   apply andb_true_iff in H. destruct H as [H1 H2]. apply Z.eqb_eq in H1. subst. f_equal. apply IH. assumption.
 Qed.
 
-Definition others {A} (l : list A) (r : nat) : list A := firstn r l ++ skipn (S r) l.
-Lemma others_upd : forall A (l : list A) r v, others (upd_nth l r v) r = others l r.
-Proof.
-  unfold others. induction l as [|x l IH]; intros [|r] v; simpl; auto.
-  specialize (IH r v). simpl in IH. f_equal. destruct l; [destruct r; reflexivity|]. exact IH.
-Qed.
-Lemma other_equal_others : forall l i r nm,
-  other_equal l i (i + r) nm = existsb (fun x => bytes_eqb x nm) (others l r).
-Proof.
-  induction l as [|x l IH]; intros i r nm; simpl.
-  - unfold others. destruct r; reflexivity.
-  - destruct r as [|r].
-    + replace (i + 0)%nat with i by lia. rewrite Nat.eqb_refl. simpl.
-      unfold others. simpl. specialize (IH (S i) 0%nat nm).
-      (* the remaining entries all have an index different from i *)
-      clear IH. assert (G : forall l j, (i < j)%nat -> other_equal l j i nm = existsb (fun x => bytes_eqb x nm) l).
-      { induction l0 as [|y l0 IH0]; intros j Hj; simpl; [reflexivity|].
-        replace (Nat.eqb j i) with false by (symmetry; apply Nat.eqb_neq; lia). simpl. rewrite IH0 by lia. reflexivity. }
-      apply G. lia.
-    + replace (Nat.eqb i (i + S r)) with false by (symmetry; apply Nat.eqb_neq; lia). simpl.
-      replace (i + S r)%nat with (S i + r)%nat by lia. rewrite IH. unfold others. simpl. reflexivity.
-Qed.
-
 (* number of entries at least as long as the candidate *)
 Definition cnt (O : list (list Z)) (k : nat) : nat := length (filter (fun x => Nat.leb k (length x)) O).
 Lemma filter_len_mono : forall (O : list (list Z)) (a b : nat), (a <= b)%nat ->
@@ -200,35 +177,29 @@ Proof.
     apply Nat.leb_le in C1. apply Nat.leb_gt in C2. lia.
 Qed.
 
-Lemma dedup_name_total : forall fuel l rank,
-  (rank < length l)%nat -> (cnt (others l rank) (length (nth rank l [])) < fuel)%nat ->
-  exists l', dedup_name fuel l rank = Some l' /\ length l' = length l.
-Proof.
-  induction fuel as [|f IH]; intros l rank Hr Hc; [lia|]. simpl.
-  pose proof (other_equal_others l 0 rank (nth rank l [])) as HO. simpl in HO. rewrite HO.
-  destruct (existsb (fun x => bytes_eqb x (nth rank l [])) (others l rank)) eqn:EX.
-  - pose proof (cnt_decr _ _ EX) as HD.
-    set (l1 := upd_nth l rank (nth rank l [] ++ [46; 49])).
-    destruct (IH l1 rank) as [l' [H1 H2]].
-    + unfold l1. rewrite upd_nth_length. assumption.
-    + unfold l1. rewrite others_upd. rewrite nth_upd_nth_same by assumption. lia.
-    + exists l'. split; [assumption|]. unfold l1 in H2. rewrite upd_nth_length in H2. assumption.
-  - exists l. split; reflexivity.
-Qed.
+Lemma bytes_eqb_refl : forall a, bytes_eqb a a = true.
+Proof. induction a as [|x a IH]; simpl; [reflexivity|]. rewrite Z.eqb_refl, IH. reflexivity. Qed.
 Lemma cnt_le : forall O k, (cnt O k <= length O)%nat.
 Proof. intros. unfold cnt. induction O as [|x O IH]; simpl; [lia|]. destruct (Nat.leb k (length x)); simpl; lia. Qed.
-Lemma others_length : forall A (l : list A) r, (r < length l)%nat -> S (length (others l r)) = length l.
+
+Lemma dedup_prev_total : forall fuel prev nm, (cnt prev (length nm) < fuel)%nat ->
+  exists nm', dedup_prev fuel prev nm = Some nm' /\ ~ In nm' prev.
 Proof.
-  intros A l r H. unfold others. rewrite app_length, firstn_length, skipn_length. lia.
+  induction fuel as [|f IH]; intros prev nm Hc; [lia|]. simpl.
+  destruct (existsb (fun x => bytes_eqb x nm) prev) eqn:EX.
+  - pose proof (cnt_decr _ _ EX) as HD. apply IH. lia.
+  - exists nm. split; [reflexivity|]. intro HI.
+    assert (existsb (fun x => bytes_eqb x nm) prev = true) by (apply existsb_exists; exists nm; split; [assumption|apply bytes_eqb_refl]).
+    congruence.
 Qed.
-Lemma set_name_total : forall l rank nm, (rank < length l)%nat ->
-  exists l', set_name l rank nm = Some l' /\ length l' = length l.
+(* correctNamesForDuplicates terminates, keeps the number of names and leaves them pairwise different *)
+Lemma correct_names_total : forall l prev, NoDup prev ->
+  exists r, correct_names prev l = Some r /\ length r = (length prev + length l)%nat /\ NoDup r.
 Proof.
-  intros l rank nm H. unfold set_name.
-  destruct (dedup_name_total (S (length l)) (upd_nth l rank nm) rank) as [l' [H1 H2]].
-  - rewrite upd_nth_length. assumption.
-  - pose proof (cnt_le (others (upd_nth l rank nm) rank) (length (nth rank (upd_nth l rank nm) []))).
-    pose proof (others_length _ (upd_nth l rank nm) rank ltac:(rewrite upd_nth_length; assumption)).
-    rewrite upd_nth_length in *. lia.
-  - exists l'. split; [assumption|]. rewrite upd_nth_length in H2. assumption.
+  induction l as [|nm l IH]; intros prev ND; cbn [correct_names].
+  - exists (frev prev). split; [reflexivity|]. rewrite frev_length. split; [simpl; lia|]. rewrite frev_rev. apply NoDup_rev. assumption.
+  - destruct (dedup_prev_total (S (length prev)) prev nm) as [nm' [H1 H2]].
+    + pose proof (cnt_le prev (length nm)). lia.
+    + rewrite H1. destruct (IH (nm' :: prev)) as [r [R1 [R2 R3]]]; [constructor; assumption|].
+      exists r. split; [assumption|split; [simpl in R2 |- *; lia|assumption]].
 Qed.
